@@ -47,6 +47,10 @@ type knownFinding struct {
 }
 
 type nativeRunner struct {
+	raceBin   string
+	raceBuilt bool
+	raceErr   error
+	ovf    string
 	tmp    string
 	bin    string
 	built  bool
@@ -83,6 +87,7 @@ func (n *nativeRunner) build() error {
 	ovj, _ := json.Marshal(map[string]interface{}{"Replace": ov})
 	ovf := filepath.Join(n.tmp, "overlay.json")
 	os.WriteFile(ovf, ovj, 0o644)
+	n.ovf = ovf
 	n.bin = filepath.Join(n.tmp, "vh.test")
 	cmd := exec.Command("go", "test", "-c", "-tags", "verif", "-vet=off", "-overlay", ovf, "-o", n.bin, ".")
 	cmd.Dir = n.eng.Opt.RepoDir
@@ -93,6 +98,68 @@ func (n *nativeRunner) build() error {
 		n.err = fmt.Errorf("native harness build failed: %v\n%s", err, out)
 	}
 	return n.err
+}
+
+// buildRace builds the replay binary with the Go race detector.
+func (n *nativeRunner) buildRace() error {
+	if err := n.build(); err != nil {
+		return err
+	}
+	if n.raceBuilt {
+		return n.raceErr
+	}
+	n.raceBuilt = true
+	n.raceBin = filepath.Join(n.tmp, "vh.race.test")
+	cmd := exec.Command("go", "test", "-c", "-race", "-tags", "verif", "-vet=off", "-overlay", n.ovf, "-o", n.raceBin, ".")
+	cmd.Dir = n.eng.Opt.RepoDir
+	cmd.Env = append(vexec.GoEnv(), "CGO_ENABLED=1")
+	out, err := cmd.CombinedOutput()
+	if err != nil {
+		n.raceErr = fmt.Errorf("race-enabled harness build failed: %v\n%s", err, out)
+	}
+	return n.raceErr
+}
+
+// runScheduleDependent replays one case repeatedly (race detector on) and
+// reports what the native runs showed: a data race, a deadlock/timeout, or a
+// failed assertion with the given label.
+func (n *nativeRunner) runScheduleDependent(c replayCase, label string, runs int) (race bool, deadlock bool, failed bool, err error) {
+	if err := n.buildRace(); err != nil {
+		return false, false, false, err
+	}
+	in := filepath.Join(n.tmp, fmt.Sprintf("sin-%d.json", time.Now().UnixNano()))
+	out := in + ".out"
+	b, _ := json.Marshal([]replayCase{c})
+	os.WriteFile(in, b, 0o644)
+	defer os.Remove(in)
+	defer os.Remove(out)
+	procs := []string{"1", "2", "4", "16"}
+	for i := 0; i < runs; i++ {
+		cmd := exec.Command(n.raceBin, "-test.run", "^TestVHReplay$", "-test.count=1", "-test.timeout=20s")
+		cmd.Dir = n.eng.Opt.RepoDir
+		cmd.Env = append(os.Environ(), "VH_REPLAY_IN="+in, "VH_REPLAY_OUT="+out, "GOMAXPROCS="+procs[i%len(procs)])
+		o, rerr := cmd.CombinedOutput()
+		so := string(o)
+		if strings.Contains(so, "DATA RACE") {
+			return true, false, false, nil
+		}
+		if strings.Contains(so, "all goroutines are asleep") || strings.Contains(so, "test timed out") {
+			return false, true, false, nil
+		}
+		if rerr == nil {
+			if ob, e := os.ReadFile(out); e == nil {
+				var outs []nativeOutcome
+				if json.Unmarshal(ob, &outs) == nil && len(outs) == 1 {
+					for _, f := range outs[0].Failed {
+						if f == label {
+							return false, false, true, nil
+						}
+					}
+				}
+			}
+		}
+	}
+	return false, false, false, nil
 }
 
 func (n *nativeRunner) run(cases []replayCase) ([]nativeOutcome, error) {
@@ -342,14 +409,47 @@ func runCheck(opt vexec.Options, prop string, seed int64, verif string) int {
 		nfile := 0
 		for _, v := range r.Violations {
 			rc := replayCase{Harness: h.Name, Vector: v.Vector, Params: mergedParams(opt, h), Property: prop, Label: v.Label, Kind: v.Kind, Pos: v.Pos}
-			outs, err := nr.run([]replayCase{rc})
-			if err != nil {
-				broken = append(broken, fmt.Sprintf("%s: native replay could not run: %v", h.Name, firstLine(err.Error())))
-				fmt.Println(err)
-				continue
-			}
-			o := outs[0]
+			var o nativeOutcome
 			reproduced := false
+			if v.Kind == "race" || v.Kind == "deadlock" {
+				race, dl, _, err := nr.runScheduleDependent(rc, v.Label, 12)
+				if err != nil {
+					broken = append(broken, fmt.Sprintf("%s: native race replay could not run: %v", h.Name, firstLine(err.Error())))
+					fmt.Println(err)
+					continue
+				}
+				reproduced = (v.Kind == "race" && race) || (v.Kind == "deadlock" && dl)
+				if race {
+					o.Panic = "DATA RACE reported by the Go race detector"
+				}
+				if dl {
+					o.Panic = "deadlock / timeout in native run"
+				}
+			} else {
+				outs, err := nr.run([]replayCase{rc})
+				if err != nil {
+					broken = append(broken, fmt.Sprintf("%s: native replay could not run: %v", h.Name, firstLine(err.Error())))
+					fmt.Println(err)
+					continue
+				}
+				o = outs[0]
+			}
+			if !reproduced && v.Kind == "assert" && usesSchedule(v) {
+				// schedule-dependent assertion: replay by repetition
+				found := false
+				for _, f := range o.Failed {
+					if f == v.Label {
+						found = true
+					}
+				}
+				if !found {
+					_, _, failed, err := nr.runScheduleDependent(rc, v.Label, 200)
+					if err == nil && failed {
+						reproduced = true
+						o.Failed = append(o.Failed, v.Label)
+					}
+				}
+			}
 			switch v.Kind {
 			case "assert":
 				for _, f := range o.Failed {
@@ -359,6 +459,11 @@ func runCheck(opt vexec.Options, prop string, seed int64, verif string) int {
 				}
 			case "panic":
 				reproduced = o.Panic != ""
+			}
+			if !reproduced && (v.Kind == "race" || v.Kind == "deadlock" || usesSchedule(v)) {
+				fmt.Printf("UNCONFIRMED property=%s harness=%s %q: found under a modelled goroutine schedule, not reproduced by native repetition (race detector on)\n", prop, h.Name, v.Label)
+				inconclusive = append(inconclusive, fmt.Sprintf("%s: schedule-dependent counterexample for %q not reproduced natively", h.Name, v.Label))
+				continue
 			}
 			if !reproduced {
 				fmt.Printf("  ENGINE-MISMATCH %s: counterexample for %q did not reproduce natively (native: failed=%v panic=%q assume_failed=%v mismatch=%q)\n",
@@ -474,6 +579,9 @@ func runCheck(opt vexec.Options, prop string, seed int64, verif string) int {
 	return 0
 }
 
+// usesSchedule: the counterexample path contains scheduling decisions.
+func usesSchedule(v vexec.Violation) bool { return v.Sched }
+
 func max64(a, b int64) int64 {
 	if a > b {
 		return a
@@ -573,6 +681,20 @@ func runReplay(opt vexec.Options, path string, verif string) int {
 	tmp, _ := os.MkdirTemp("", "vsym.")
 	defer os.RemoveAll(tmp)
 	nr := &nativeRunner{tmp: tmp, eng: eng, verif: verif}
+	if len(cases) == 1 && (cases[0].Kind == "race" || cases[0].Kind == "deadlock") {
+		race, dl, _, err := nr.runScheduleDependent(cases[0], cases[0].Label, 20)
+		if err != nil {
+			fmt.Println(err)
+			return 2
+		}
+		fmt.Printf("replay %s (%s %q): native runs with the race detector: race=%v deadlock=%v\n", cases[0].Harness, cases[0].Property, cases[0].Label, race, dl)
+		if (cases[0].Kind == "race" && race) || (cases[0].Kind == "deadlock" && dl) {
+			fmt.Println("REPRODUCED")
+			return 1
+		}
+		fmt.Println("not reproduced")
+		return 0
+	}
 	outs, err := nr.run(cases)
 	if err != nil {
 		fmt.Println(err)
